@@ -416,6 +416,7 @@ def extract_scenario(kind):
     ip.overrides["qkeras.estimate::get_operation_type"] = lambda ip_, fv, a, k: ("mult", 4, 4, 8)
     ip.overrides["qkeras.estimate::get_quant_mode"] = lambda ip_, fv, a, k: (0, 4, 1)
     nq = 2
+    cls = kind
     if kind == "QConv2D":
       hi, wi, ci, ho, wo, co, kh, kw = ints(ip, s, ["Hi", "Wi", "Ci", "Ho", "Wo", "Co", "Kh", "Kw"])
       ishape, oshape = (None, S(hi), S(wi), S(ci)), (None, S(ho), S(wo), S(co))
@@ -443,6 +444,15 @@ def extract_scenario(kind):
       ws = [(S(k), S(ci), 1), (1, S(ci), S(co)), (S(co),)]
       spec = to * k * ci + to * ci * co
       nq = 3
+    elif kind in ("QDense", "QDense_se", "QDense_nobias"):
+      ni, no = ints(ip, s, ["Ni", "No"], lo=1)
+      if kind == "QDense_se":            # squeeze-and-excite: (batch, 1, 1, channels)
+        ishape, oshape = (None, 1, 1, S(ni)), (None, 1, 1, S(no))
+      else:
+        ishape, oshape = (None, S(ni)), (None, S(no))
+      ws = [(S(ni), S(no))] + ([] if kind == "QDense_nobias" else [(S(no),)])
+      spec = ni * no
+      cls = "QDense"
     else:
       raise ValueError(kind)
     tin = Obj(ExtClass("Tensor"), {"experimental_ref": Builtin("experimental_ref", lambda ip_: "ref_in"),
@@ -450,13 +460,14 @@ def extract_scenario(kind):
     tout = Obj(ExtClass("Tensor"), {"experimental_ref": Builtin("experimental_ref", lambda ip_: "ref_out")})
     weights = [Obj(ExtClass("ndarray"), {"shape": w}) for w in ws]
     quant = Obj(ExtClass("quantized_bits"), {"bits": 4})
-    layer = Obj(ExtClass(kind), {"name": "layer0", "input": tin, "output": tout,
+    layer = Obj(ExtClass(cls), {"name": "layer0", "input": tin, "output": tout,
                                  "compute_output_shape": Builtin("compute_output_shape", lambda ip_, shp: oshape),
                                  "get_weights": Builtin("get_weights", lambda ip_: list(weights)),
                                  "get_quantizers": Builtin("get_quantizers", lambda ip_: [quant] * nq)})
     inp = Obj(ExtClass("InputLayer"), {"name": "in0"})
     model = Obj(ExtClass("Model"), {"layers": [inp, layer]})
     r = run_call(ip, f, [model])
+    s.replay = {"kind": kind}
     s.claim("no_raise", r[0] == "return")
     if r[0] != "return":
       s.info["raised"] = str(r[1])
@@ -467,6 +478,89 @@ def extract_scenario(kind):
       return s
     s.claim("count", Q.num_value(ops["layer0"]["number_of_operations"]) == z3.ToReal(spec))
     s.replay = {"kind": kind}
+    return s
+  return scenario
+
+
+# documented operator-strength table of estimate.get_operation_type (its docstring): rows = weight mode, columns = input
+# mode, in the order qb(n), +/-exp, t(-1,0,+1), b(-1,+1), b(0,1), float.  '*' multiplier, '<< >>' barrel shifter, '+' adder,
+# a cell containing '?' is a mux, otherwise '^' is an xor; any float operand needs a floating-point multiplier.
+OPTYPE_DOC = [["*", "<< >>,-", "?,-", "?,-", "?", "*f"],
+              ["<< >>,-", "+", "?,-", "^", "?,-", "*f"],
+              ["?,-", "?,-", "?,^", "?,^", "^", "*f"],
+              ["?,-", "^", "?,^", "^", "^", "*f"],
+              ["?", "?,-", "^", "^", "^", "*f"],
+              ["*f", "*f", "*f", "*f", "*f", "*f"]]
+QCLASSES = ["quantized_bits", "quantized_tanh", "quantized_ulaw", "quantized_relu", "bernoulli", "stochastic_ternary",
+            "ternary", "stochastic_binary", "binary", "quantized_po2", "quantized_relu_po2", None]
+
+
+def doc_cell(c):
+  return ("fmult" if c == "*f" else "mult" if c == "*" else "barrel" if c.startswith("<<") else "adder" if c == "+"
+          else "mux" if "?" in c else "xor")
+
+
+def optype_scenario(wcls):
+  """estimate.get_operation_type with the real get_quant_mode for one weight-quantizer class against every input-quantizer
+  class, bit widths and integer bits symbolic: the reported (mode, bits, sign) triple of each operand is the documented one
+  (comment table of get_quant_mode) and the operator is the documented cell of the strength table."""
+  def scenario(ip):
+    s = Scen()
+    f = ip.find("qkeras/estimate.py::get_operation_type")
+    wb, wi, xb, xi = ints(ip, s, ["w_bits", "w_int", "x_bits", "x_int"], lo=0)
+    for v in (wb, xb):
+      ip.assume(z3.And(v >= 1, v <= 32))
+    for v in (wi, xi):
+      ip.assume(v <= 32)
+
+    def quant(cls, b, i):
+      if cls is None:
+        return None
+      return Obj(ip.find("qkeras/quantizers.py::" + cls), {"bits": SNum(b, "int"), "integer": SNum(i, "int")})
+
+    def spec(cls, b, i):
+      if cls is None:
+        return z3.IntVal(5), z3.IntVal(32), 1
+      if cls in ("quantized_bits", "quantized_tanh", "quantized_ulaw"):
+        return z3.If(z3.And(b == 2, i == 1), 2, 0), b, 1
+      if cls == "quantized_relu":
+        return z3.If(z3.And(b == 1, i == 1), 4, 0), b, 0
+      if cls in ("quantized_po2", "quantized_relu_po2"):
+        return z3.IntVal(1), b, 1 if cls == "quantized_po2" else 0
+      return {"bernoulli": (z3.IntVal(4), z3.IntVal(1), 0), "stochastic_ternary": (z3.IntVal(2), z3.IntVal(2), 1),
+              "ternary": (z3.IntVal(2), z3.IntVal(2), 1), "stochastic_binary": (z3.IntVal(3), z3.IntVal(1), 1),
+              "binary": (z3.IntVal(3), z3.IntVal(1), 1)}[cls]
+
+    ok_ret, g_modes, g_bits, g_op, ok_sign = True, [], [], [], True
+    for xcls in QCLASSES:
+      tin = Obj(ExtClass("Tensor"), {"experimental_ref": Builtin("experimental_ref", lambda ip_: "ref_in")})
+      wq = quant(wcls, wb, wi)
+      layer = Obj(ExtClass("QDense"), {"name": "layer0", "input": tin,
+                                       "get_quantizers": Builtin("get_quantizers", lambda ip_, wq=wq: [wq, None])})
+      xq = quant(xcls, xb, xi)
+      # an unquantized input is recorded in the cache as the 'linear' activation function would be: a float tensor
+      cache = {"ref_in": xq if xq is not None else Obj(ExtClass("function"), {"__name__": "linear"})}
+      r = run_call(ip, f, [layer, cache])
+      if r[0] != "return" or not isinstance(r[1], tuple) or len(r[1]) != 4:
+        ok_ret = False
+        s.info.setdefault("raised", []).append("%s x %s: %s" % (wcls, xcls, r[1]))
+        continue
+      op, modes, bits, signs = r[1]
+      (wm, wbits, ws), (xm, xbits, xs) = spec(wcls, wb, wi), spec(xcls, xb, xi)
+      g_modes.append(z3.And(Q.num_value(modes[0]) == z3.ToReal(wm), Q.num_value(modes[1]) == z3.ToReal(xm)))
+      g_bits.append(z3.And(Q.num_value(bits[0]) == z3.ToReal(wbits), Q.num_value(bits[1]) == z3.ToReal(xbits)))
+      ok_sign = ok_sign and tuple(signs) == (ws, xs)
+      # the operator: the path fixes the modes, so `op` is a concrete string; it must be the documented cell of the
+      # documented modes
+      if not isinstance(op, str):
+        raise I.Unsupported("symbolic operator name %r" % (op,))
+      g_op.append(z3.Or(*[z3.And(wm == a, xm == b_) for a in range(6) for b_ in range(6)
+                          if doc_cell(OPTYPE_DOC[a][b_]) == op]))
+    s.claim("returns_four_fields", ok_ret)
+    s.claim("operand_modes_as_documented", z3.And(*g_modes) if g_modes else False)
+    s.claim("operand_bits_as_documented", z3.And(*g_bits) if g_bits else False)
+    s.claim("operand_signs_as_documented", ok_sign)
+    s.claim("operator_is_documented_cell", z3.And(*g_op) if g_op else False)
     return s
   return scenario
 
@@ -498,11 +592,16 @@ def cases(tier):
                                                             "parameter_read_energy replaced by their contracts (non-negative "
                                                             "value per call) inside energy_estimate",
                                                             "float('{0:.2f}'.format(x)) is x rounded to two decimals"]))
-  for k in ("QConv2D", "QConv1D", "QDepthwiseConv2D", "QSeparableConv2D", "QSeparableConv1D"):
+  for k in ("QConv2D", "QConv1D", "QDepthwiseConv2D", "QSeparableConv2D", "QSeparableConv1D", "QDense", "QDense_se",
+            "QDense_nobias"):
     out.append(Case(PROP, "qkeras/estimate.py::extract_model_operations", k, extract_scenario(k), bounds=bounds,
                     replay_kind="c19_extract", assumptions=ASSUME + [
                         "unfold_model / create_activation_cache / get_operation_type / get_quant_mode replaced by "
                         "trivial contracts inside extract_model_operations"]))
+  for wc in QCLASSES:
+    out.append(Case(PROP, "qkeras/estimate.py::get_operation_type", "w_" + str(wc), optype_scenario(wc),
+                    replay_kind=None, assumptions=ASSUME + [
+                        "quantizers are instances of the real classes built without running __init__ (only bits / integer are read)"]))
   for k in ("dense_bias", "dense_nobias", "bn_all", "bn_partial", "other"):
     out.append(Case(PROP, QE + "parameter_read_energy", k, param_scenario(k), replay_kind=None,
                     assumptions=ASSUME + ["memory_read_energy replaced by its contract inside parameter_read_energy"]))
